@@ -133,7 +133,10 @@ pub fn config(name: &str, wasm: &[u8], out: &mut Vec<Json>) {
     }
     // the parse callback: exactly once per successful parse, never on a failed one
     use std::sync::atomic::{AtomicUsize, Ordering}; use std::sync::Arc;
-    for (bytes, label) in [(wasm.to_vec(), "valid"), ({ let mut t = wasm.to_vec(); let n = t.len(); if n > 12 { t.truncate(n - 3); } t }, "truncated")] {
+    // two inputs that only the END-of-module checks of the validator reject: a function section without a code section, a data count without data
+    let no_code: Vec<u8> = vec![0x00, 0x61, 0x73, 0x6d, 0x01, 0x00, 0x00, 0x00, 0x01, 0x04, 0x01, 0x60, 0x00, 0x00, 0x03, 0x02, 0x01, 0x00];
+    let no_data: Vec<u8> = vec![0x00, 0x61, 0x73, 0x6d, 0x01, 0x00, 0x00, 0x00, 0x05, 0x03, 0x01, 0x00, 0x01, 0x0c, 0x01, 0x01];
+    for (bytes, label) in [(wasm.to_vec(), "valid"), ({ let mut t = wasm.to_vec(); let n = t.len(); if n > 12 { t.truncate(n - 3); } t }, "truncated"), (no_code, "function section without code section"), (no_data, "data count without data section")] {
         let calls = Arc::new(AtomicUsize::new(0)); let c2 = calls.clone();
         let r = catch(|| { let mut c = ModuleConfig::new(); c.on_parse(move |_, _| { c2.fetch_add(1, Ordering::SeqCst); Ok(()) }); c.parse(&bytes).is_ok() });
         if let Some(ok) = r { let n = calls.load(Ordering::SeqCst); if (ok && n != 1) || (!ok && n != 0) { out.push(v("on-parse-call-count", "C14", format!("{}: parse callback ran {} times on a {} parse of a {} input", name, n, if ok { "successful" } else { "failed" }, label), &bytes, String::new(), String::new())); } }
